@@ -480,6 +480,31 @@ def check_C07(c):
             c.violation("implementation-vs-property", "evaluation order / laziness / stop-at-first-error: call log differs from the syntactic order",
                         {"input_text": text, "fault_at": k, "fault_kind": kind_, "expected_log": exp_log_s, "implementation_log": got_log,
                          "expected_value": sexp_str(val), "implementation": line[:300], "requests": reqs[2 * i:2 * i + 2]})
+    # the same rule at the two places where an operand is easy to forget: the arguments of a call to a name that is bound
+    # nowhere (they are evaluated, then the call fails), and the left side of an assignment (a bare name bound to a context
+    # function is called, once, before the right side)
+    def L(nm, *args): return (nm, list(args))
+    one = n(1)
+    templ = [("nowhere(A(), B(A2()))", [L("A"), L("A2"), L("B", one)], "ERR"),
+             ("[A(), nowhere(B(), A2()), B2()]", [L("A"), L("B"), L("A2")], "ERR"),
+             ("A = B()", [L("A"), L("B")], "OK"), ("A += B()", [L("A"), L("B")], "OK"), ("x = A; A = B(); A", [L("A"), L("A"), L("B")], "OK"),
+             ("[B(), A = B2(), A2()]", [L("B"), L("A"), L("B2"), L("A2")], "OK"), ("A = (B = A2())", [L("A"), L("B"), L("A2")], "OK"),
+             ("A2(A = 1, B())", [L("A"), L("B"), L("A2", ["none"], one)], "OK"), ("A <<= B()", [L("A"), L("B")], "OK"),
+             ("true ? (A = B()) : A2()", [L("A"), L("B")], "OK"), ("nowhere()", [], "ERR"), ("nowhere(1/0, A())", [], "ERR")]
+    treqs = []
+    for text, log, oc_ in templ:
+        binds = [(nm, "f", ["log", hx(nm), ["const", one]]) for nm in ("A", "A2", "B", "B2")]
+        treqs += [ctx_line("c", binds), exec_line("c", text)]
+    ti, tm = both(treqs)
+    c.add_stream(Stream("unbound callee / assignment target templates", treqs, ti, tm))
+    for j, (text, log, oc_) in enumerate(templ):
+        line = ti[2 * j + 1]
+        f = line.split("\t")
+        exp_log_s = "(" + " ".join("(" + " ".join([hx(nm)] + [norm_numbers(sexp_str(a)) for a in args]) + ")" for nm, args in log) + ")"
+        got_log = norm_numbers(f[3]) if len(f) > 3 else "?"
+        if outcome_of(line)[0] != oc_ or got_log != exp_log_s:
+            c.violation("implementation-vs-property", "evaluation order: every operand once, left to right — also the arguments of a call that then fails and the left side of an assignment",
+                        {"input_text": text, "expected_log": exp_log_s, "expected_outcome": oc_, "implementation": line[:300], "requests": treqs[2 * j:2 * j + 2]})
     return c.finish(trusted=TB_COMMON, rule="random trees (operands, call arguments, list elements, map entries, statements, assignments, conditionals) whose leaves are logging context functions; no fault + Err and panic injected at every call position (trees with ≤ 8 calls); oracle: call log = syntactic left-to-right order with only the selected branch, truncated at the fault")
 
 
@@ -623,11 +648,24 @@ def check_C08(c):
         [ctx_line("c", [("max", "f", const(10))]), exec_line("c", "max(1, 2)"), ctx_line("d", []), exec_line("d", "max(1, 2)")],
         [reg("prefix", "neg2", ["bi", hx("-")]), reg("prefix", "neg2", const(8)), "CTX\tc\t()", exec_line("c", "neg2 5")],
         [reg("infix", "hi", const(1), 111), reg("infix", "hi", const(2), 30), "CTX\tc\t()", parse_req("1 + 2 hi 3"), exec_line("c", "1 + 2 hi 3")],
+        # the handler in force when the call is *made* counts: an argument's handler replaces the callee / registers it
+        [reg("fn", "greet", const(1)), reg("fn", "upgrade", ["seq", ["reg", "fn", hx("greet"), "0", "calc", "left", const(2)], const(0)]),
+         reg("fn", "install", ["seq", ["reg", "fn", hx("fresh"), "0", "calc", "left", const(42)], const(0)]),
+         "CTX\tc\t()", exec_line("c", "greet(upgrade())"), exec_line("c", "fresh(install(), 2)")],
+        # a context function shadows a global one only while the name is bound to a function there
+        [reg("fn", "sh", const(100)), ctx_line("c", [("sh", "f", const(200))]), exec_line("c", "sh()"), exec_line("c", "sh(sh = 7)"), exec_line("c", "sh()")],
+        # use before registration: the same spelling first read as a name / unknown word, then registered as an operator of each kind
+        [ctx_line("c", [("twice", "v", n(1)), ("x", "v", n(21))]), exec_line("c", "twice x"), reg("prefix", "twice", const(77)), exec_line("c", "twice x"),
+         exec_line("c", "x pct"), reg("postfix", "pct", const(78)), exec_line("c", "x pct"),
+         exec_line("c", "x between 2"), reg("infix", "between", const(79), 115), exec_line("c", "x between 2"),
+         exec_line("c", "!!x"), reg("prefix", "!!", const(80)), exec_line("c", "!!x"), reg("postfix", "%%", const(81)), exec_line("c", "x %%")],
     ]
     EXPECT = {0: {2: "(n 0 1 0)", 4: "(n 0 2 0)", 7: "(n 0 8 0)"}, 1: {2: "(n 1 7 0)"}, 2: {1: "(n 0 2 0)", 3: "(n 1 7 0)"},
               3: {2: "(n 0 42 0)", 3: "(n 0 1 0)"}, 4: {2: "(n 0 42 0)"}, 5: {2: "(n 0 42 0)", 4: "(n 1 1 0)"},
               6: {2: "(n 0 10 0)", 4: "(n 0 1 0)", 5: "(n 0 5 0)", 7: "(n 0 1 0)", 8: "ERR"}, 7: {1: "(n 0 10 0)", 3: "(n 0 2 0)"},
-              8: {3: "(n 0 8 0)"}, 9: {4: "(n 0 2 0)"}}
+              8: {3: "(n 0 8 0)"}, 9: {4: "(n 0 2 0)"},
+              10: {4: "(n 0 2 0)", 5: "(n 0 42 0)"}, 11: {2: "(n 0 200 0)", 3: "(n 0 100 0)", 4: "(n 0 100 0)"},
+              12: {3: "(n 0 77 0)", 6: "(n 0 78 0)", 9: "(n 0 79 0)", 12: "(n 0 80 0)", 14: "(n 0 81 0)"}}
     for hi, h in enumerate(H):
         impl, model = both(h)
         c.add_stream(Stream("dispatch history %d (fresh process)" % hi, h, impl, model))
@@ -711,6 +749,9 @@ def check_C09(c):
     for k in (31, 32, 53, 62, 63, 64, 95):
         for dlt in (-1, 0, 1):
             pool.append(n(2 ** k + dlt, 0, rng.chance(1, 2)))
+    # a large dividend against divisors of many places: aligning the scales takes the dividend far beyond 96 bits
+    pool += [n(9999999999999999999999999999, 28), n(99999999999999999999, 20), n(999999999999999999999999, 24), n(3, 28), n(10 ** 27 + 1, 27),
+             n(2 ** 96 - 1), n(2 ** 96 - 1, 28), n(123456789012345678901234567, 9)]
     pool += [n(3037000500), n(3037000499), n(4294967296, 0), n(4294967296, 3), n(9007199254740993), n(9007199254740993, 2),
              n(9223372036854775807, 0, True), n(18446744073709551615), n(99999999999999999999), n(10 ** 19, 0, True)]
     ops = ["+", "-", "*", "%", "<", "<=", ">", ">=", "==", "!=", "+=", "-=", "*=", "%="]
